@@ -253,7 +253,11 @@ func cmdCheck(args []string) int {
 		}
 	}
 	if cfg.Sweep != nil {
-		sw := runSweep(w, cfg.Sweep.Packages)
+		skip := map[*ssa.Function]bool{}
+		for _, fn := range targets {
+			skip[fn] = true
+		}
+		sw := runSweep(w, cfg.Sweep.Packages, skip)
 		if base := loadBaseline(prop); *tier == "quick" && len(base) > 0 && !*updateBaseline {
 			// quick tier: the binding (baseline) sweep obligations are discharged, plus obligations that are new on this
 			// tree (neither proved nor recorded as unproved when the baseline was taken)
